@@ -391,7 +391,12 @@ class Emitter:
                 i += 1
             elif s.startswith('//@struct '):
                 rel, name = [x.strip() for x in s[len('//@struct '):].split('::')]
-                self.emit_struct(rel, name)
+                subs = []
+                while i + 1 < len(lines) and lines[i + 1].strip().startswith('//@sub '):
+                    a, b = lines[i + 1].strip()[len('//@sub '):].split(' => ', 1)
+                    subs.append((a.strip(), b))
+                    i += 1
+                self.emit_struct(rel, name, subs)
                 i += 1
             elif s.startswith('//@item '):
                 rel, cont, name = [x.strip() for x in s[len('//@item '):].split('::', 2)]
@@ -409,7 +414,7 @@ class Emitter:
                 self.emit(ln + '\n')
                 i += 1
 
-    def emit_struct(self, rel, name):
+    def emit_struct(self, rel, name, subs=()):
         src, it = self.source.find(rel, '-', name)
         text = strip_attrs(src[it['start']:it['end']])
         text = widen_vis(text)
@@ -428,6 +433,10 @@ class Emitter:
                     out.append(fl)
                 body = '\n'.join(out)
             text = head + body
+        for a, rep in subs:
+            text, k = re.subn(a, rep, text)
+            if k == 0:
+                raise Lost('substitution /%s/ lost in struct %s' % (a, name))
         self.emit('//#struct %s::%s lines=%d-%d\n' % (rel, name, line_of(src, it['start']), line_of(src, it['end'])))
         self.emit(text + '\n')
 
